@@ -450,7 +450,8 @@ def quick_tier(tier):
     return tier == "quick"
 
 
-def build_corpus(tier):
+def build_corpus(tier, only=None):
+    """only: regex on scenario ids (development aid: a slice of the corpus; the plans' uninterrupted baselines are kept)"""
     t0 = time.time()
     scs = []
     for sw in corpus_spec(tier):
@@ -472,6 +473,8 @@ def build_corpus(tier):
         if isinstance(lst, dict):
             raise RuntimeError(f"baseline of {pn} failed: {lst['error']}")
         scs += lst
+    if only:
+        scs = [x for x in scs if "|" not in x["id"] or re.search(only, x["id"])]
     res = run_scenarios(scs)
     errs = [r for r in res if r["error"]]
     if errs:
